@@ -37,6 +37,7 @@ struct Ctx {
     r: Reporter,
     rng: ChaCha20Rng,
     events_left: usize,
+    events_reserved_v5: usize,
     fields_mutated: BTreeSet<(String, &'static str)>,
 }
 
@@ -530,8 +531,13 @@ fn one_case(c: &mut Ctx, pool: &Pool, parts: &Parts, branch: BranchId, origin: &
             c.r.violation(&format!("C04:{v}:txid-not-sha256d"), "txid of a pre-v5 transaction is not sha256d of its serialisation", replay(&bytes, branch, &coins, json!(null)));
         }
     }
-    if c.events_left > 0 && c.r.has_events() && bytes.len() <= 80_000 {
+    // the event budget goes to v5 first (the only version with an independent digest reference)
+    let ev_ok = if ver == Ver::V5 { c.events_left > 0 } else { c.events_left > c.events_reserved_v5 };
+    if ev_ok && c.r.has_events() && bytes.len() <= 80_000 {
         c.events_left -= 1;
+        if ver == Ver::V5 {
+            c.events_reserved_v5 = c.events_reserved_v5.saturating_sub(1);
+        }
         c.r.count("events_logged", 1);
         c.r.event(&json!({
             "hex": hexs(&bytes), "branch": txgen::branch_name(branch), "branch_id": u32::from(branch), "ver": v, "origin": origin,
@@ -569,7 +575,7 @@ fn main() {
     let r = Reporter::new("C04", &args);
     let rng = vh_common::rng(args.shard_seed(), 0xC04);
     let thorough = args.tier == Tier::Thorough;
-    let mut c = Ctx { r, rng, events_left: args.get_u64("n-events", 230) as usize, fields_mutated: BTreeSet::new() };
+    let mut c = Ctx { r, rng, events_left: args.get_u64("n-events", 230) as usize, events_reserved_v5: (args.get_u64("n-events", 230) * 6 / 10) as usize, fields_mutated: BTreeSet::new() };
     let max_cases = args.get_u64("max-cases", if thorough { 40_000 } else { 2_000 }) as usize;
     let matrix_budget = args.get_u64("fields-per-tx", 80) as usize;
 
